@@ -472,6 +472,37 @@ def check_fma_accounting(r, repo, rule="R11.5"):
                 r.ob(rule, f"{key} accounts for every word", ok_i,
                      f"no arm of the result equals x*y + z up to the error word of the last 2Sum; the closest arm leaves `{worst!r}`", loc(rel, g))
                 n_checked += 1
+                # (iii) an arm that leaves a remainder and is justified by "the remainder vanishes" must test that remainder
+                def disjuncts(c):
+                    if isinstance(c, Cond) and c.op == "or":
+                        return disjuncts(c.a) + disjuncts(c.b)
+                    return [c]
+
+                def input_zero_test(c):
+                    return isinstance(c, Cond) and c.op == "==" and isinstance(c.b, (int, float)) and c.b == 0 and isinstance(c.a, Poly) \
+                        and len(c.a.t) == 1 and list(c.a.t.values()) == [1] and len(next(iter(c.a.t))) == 1
+
+                for path, l in leaves:
+                    d = Poly(dict((exact - l).t))
+                    if not d.t:
+                        continue
+                    if any(pol and input_zero_test(c) for c, pol in path):
+                        continue  # an arm taken because an input is zero is judged under that fact by (ii)
+                    for c, pol in path:
+                        if not pol:
+                            continue
+                        for dj in disjuncts(c):
+                            if isinstance(dj, Cond) and dj.op == "==" and isinstance(dj.b, (int, float)) and dj.b == 0 and isinstance(dj.a, Poly):
+                                E = Poly(dict(dj.a.t))
+                                single_atom = len(E.t) == 1 and list(E.t.values()) == [1] and len(next(iter(E.t))) == 1
+                                if not E.t or single_atom:
+                                    continue  # identically zero probes and tests of an input are judged by (ii)
+                                n_checked += 1
+                                okr = Poly.__eq__(E, d)
+                                r.ob(rule, f"{key} arm with remainder `{d!r}` is justified by a zero test of that remainder", okr,
+                                     f"the arm `{l!r}` leaves `{d!r}` of x*y + z unaccounted and is taken when `{E!r} == 0` (or its alternative) holds: that "
+                                     "is a zero test of another word - when it holds the remainder need not vanish and the rounding correction is skipped "
+                                     "or applied in a meaningless direction (e.g. fma(3, RN(1/3), -1))", loc(rel, g))
                 # (ii) arms selected by a zero test
                 for path, l in leaves:
                     zt = [(c, pol) for c, pol in path if isinstance(c, Cond) and c.op == "==" and isinstance(c.b, (int, float)) and c.b == 0 and pol]
